@@ -148,9 +148,22 @@ def main():
             props = sorted(p for p in PROPS if v[p] != base[p])
             table.setdefault('%s::%s' % (rel, qn), {})[l] = props
     out = '/verif/sa/rules/local_anchors.json'
+    # how every local of an anchored function is defined on this (reference) tree: lets the checker follow a pure rename
+    from sa import localfp
+    from sa.model import Model
+    m = Model('/repo')
+    fps = {}
+    for key in table:
+        rel, qn = key.split('::')
+        mod = rel[len('billiard/'):-3].replace('/', '.')
+        fi = m.funcs.get('%s:%s' % (mod, qn))
+        if fi is not None:
+            fps[key] = {l: list(fp) for l, fp in localfp.fingerprints(fi.node).items()}
     json.dump({'_comment': 'generated by tools/discover_local_anchors.py: local variable names the rules depend on; '
-                           'a listed local that vanishes from its function turns the run into ANALYSIS-ERROR',
-               'anchors': table}, open(out, 'w'), indent=1, sort_keys=True)
+                           'a listed local that vanishes from its function and cannot be traced to exactly one new local '
+                           'with the same definition fingerprint turns the run into ANALYSIS-ERROR',
+               'anchors': table, 'fingerprints': fps, 'functions': sorted(m.funcs)}, open(out, 'w'), indent=1,
+              sort_keys=True)
     n = sum(len(v) for v in table.values())
     print('%d (function, local) anchors in %d functions -> %s' % (n, len(table), out))
     for k, v in sorted(table.items()):
